@@ -662,6 +662,20 @@ impl C04 {
     }
 
     pub fn gen_nesting(&self, t: &mut Tape, max_depth: usize) -> String {
+        if t.chance(1, 5) {
+            // functional operations nested in each other's callbacks, up to 31 deep (two AST
+            // levels each: within the 64 levels the property allows)
+            let d = 1 + t.choice(31);
+            let mut e = "q".to_string();
+            for k in 0..d {
+                e = match (t.choice(3), k) {
+                    (0, _) => format!("map(func (q) => {}, [q])", e),
+                    (1, _) => format!("filter(func (q) => {} != NULL, [q])", e),
+                    _ => format!("reduce(func (acc, q) => {}, q, [q])", e),
+                };
+            }
+            return format!("let f = func (q) => {};\nlet r = f(1);", e);
+        }
         let d = 1 + t.choice(max_depth);
         let mut open = String::new();
         let mut close = String::new();
@@ -689,7 +703,7 @@ impl Property for C04 {
         "C04"
     }
     fn rule(&self) -> String {
-        "enumerated: every .ucg file shipped in the repository and every file of fuzz/corpus, unmodified; generated: token soups over the full vocabulary with arbitrary Unicode characters, statement-shaped soups, 1-3 token mutations (delete/duplicate/swap/replace) of windows of those files, edge-arithmetic programs (zero divisors, i64 extremes, range limits, format placeholder/argument mismatches, casts and functional ops on wrong shapes, includes of empty / blank / malformed / binary / missing data files under every include type), bracket nesting 1..64, valid generated programs with comments, newlines and CRLF between any two tokens, constraint programs (plain, recursive, mutually recursive and ill-founded definitions applied to values nested up to 14 deep); each input goes through tokenize, parse (with/without comments), type check, translate, format, evaluate (strict / non-strict), convert (8 converters) under catch_unwind in a supervised worker with a deterministic work bound; 1 in 40 also through the real binary (build, fmt, test). Non-trivial: the input parses and has >= 3 tokens; distinct by input text.".into()
+        "enumerated: every .ucg file shipped in the repository and every file of fuzz/corpus, unmodified; generated: token soups over the full vocabulary with arbitrary Unicode characters, statement-shaped soups, 1-3 token mutations (delete/duplicate/swap/replace) of windows of those files, edge-arithmetic programs (zero divisors, i64 extremes, range limits, format placeholder/argument mismatches, casts and functional ops on wrong shapes, includes of empty / blank / malformed / binary / missing data files under every include type), bracket nesting 1..64, functional operations nested in each other's callbacks up to 31 deep, valid generated programs with comments, newlines and CRLF between any two tokens, constraint programs (plain, recursive, mutually recursive and ill-founded definitions applied to values nested up to 14 deep); each input goes through tokenize, parse (with/without comments), type check, translate, format, evaluate (strict / non-strict), convert (8 converters) under catch_unwind in a supervised worker with a deterministic work bound; 1 in 40 also through the real binary (build, fmt, test). Non-trivial: the input parses and has >= 3 tokens; distinct by input text.".into()
     }
     fn assumptions(&self) -> Vec<String> {
         vec![
